@@ -28,7 +28,7 @@ WITNESS = {
     # fails and the deferred re-acquisition must still succeed, or the application's TRUNCATE checkpoint destroys uncopied frames
     "Q2": [["LsOpen", "new"], ["AppWrite", 1], ["LsSyncAndWait"], ["CkStart", "PASSIVE"], ["CkStep"], ["CkStep"], ["CkCancel"], ["CkStep"],
            ["LsSyncAndWait"], ["AppWrite", 2], ["AppCheckpoint", "TRUNCATE"], ["AppWrite", 3], ["LsSyncAndWait"], ["LsClose"]],
-    # S2 (known finding): the newest local level-0 files vanish while litestream runs, level-0 retention invalidates the cached position
+    # S2: the newest local level-0 files vanish while litestream runs, level-0 retention invalidates the cached position
     "S2": [["LsOpen", "new"], ["AppWrite", 1], ["LsSyncAndWait"], ["AppWrite", 2], ["LsSyncAndWait"], ["AppWrite", 3], ["LsSyncAndWait"], ["Compact", 1],
            ["AppWrite", 4], ["LsSyncAndWait"], ["AppWrite", 5], ["LsSyncAndWait"], ["AppWrite", 6], ["LsSync"], ["LocalLoss", "newest"], ["LocalLoss", "newest"],
            ["L0Retention", 9], ["AppWrite", 1], ["LsSyncAndWait"], ["AppWrite", 2], ["LsSyncAndWait"], ["LsClose"]],
